@@ -3,7 +3,7 @@ CONSTANTS
   MaxFaults = 1
   MaxT = 3
   MaxC = 2
-  EmitOn = FALSE
+  EmitOn = TRUE
 INVARIANT TypeOK
 INVARIANT OldOrNew
 INVARIANT FailKeepsOld
